@@ -485,6 +485,37 @@ static int gw_replay_file(const char *path) {
     return rc ? 1 : 0;
 }
 
+/* GW_PROGS=<file>: programs given explicitly (behaviours sampled by TLC's simulation mode): one action label per line as in
+   replay files, programs separated by a line "--"; each is completed to a terminal state when the known graph has a way */
+static int gw_progs(const char *path) {
+    FILE *f = fopen(path, "r");
+    if (!f) { fprintf(stderr, "cannot open %s\n", path); return 2; }
+    int cap = 4096 + gw_nstates, *prog = malloc(sizeof(int) * cap), n = 0, cur = gw_inits[0], bad = 0;
+    char line[2048];
+    while (fgets(line, sizeof line, f)) {
+        line[strcspn(line, " \t\n")] = 0;
+        if (!strcmp(line, "--")) {
+            if (n && !bad) { int len = gw_complete(prog, n, cap - 2); gw_exec(prog, len); }
+            n = 0; cur = gw_inits[0]; bad = 0;
+            if (gw_timeup(100)) break;
+            continue;
+        }
+        if (bad || !line[0] || n >= 4000) continue;
+        int found = -1;
+        for (int k = 0; k < gw_states[cur].nedges; k++) {
+            char lab[256];
+            gw_fmt_edge(lab, sizeof lab, gw_states[cur].first + k);
+            if (!strcmp(lab, line)) { found = gw_states[cur].first + k; break; }
+        }
+        if (found < 0) { bad = 1; continue; }          /* (label longer than the formatter's buffer: skip this behaviour) */
+        prog[n++] = found;
+        cur = gw_edges[found].dst;
+    }
+    fclose(f);
+    free(prog);
+    return 0;
+}
+
 /* standard CLI:  <table> <replaydir> <tag> <D> <budget> <walks> <walklen> <seed> */
 static int gw_main(int argc, char **argv) {
     if (argc < 9) { fprintf(stderr, "usage: %s table replaydir tag D budget walks walklen seed\n", argv[0]); return 2; }
@@ -520,9 +551,12 @@ static int gw_main(int argc, char **argv) {
                 gw_forked = 1; gw_skip = skip;
                 unsetenv("GW_FORK");
                 int complete = 1;
+                if (getenv("GW_PROGS")) { gw_progs(getenv("GW_PROGS")); complete = 0; }
+                else {
                 if (D > 0) complete = gw_paths(D, budget);
                 gw_cover(getenv("GW_COVER_TAIL") ? atoi(getenv("GW_COVER_TAIL")) : 4, seed);
                 if (walks) gw_walks(walks, L, seed + 17);
+                }
                 gw_print_stats(complete);
                 fflush(stdout);
                 _exit(0);
@@ -548,9 +582,12 @@ static int gw_main(int argc, char **argv) {
         return 0;
     }
     int complete = 1;
+    if (getenv("GW_PROGS")) { gw_progs(getenv("GW_PROGS")); complete = 0; }
+    else {
     if (D > 0) complete = gw_paths(D, budget);
     gw_cover(getenv("GW_COVER_TAIL") ? atoi(getenv("GW_COVER_TAIL")) : 4, seed);
     if (walks) gw_walks(walks, L, seed + 17);
+    }
     gw_print_stats(complete);
     return 0;
 }
